@@ -931,3 +931,165 @@ Section Final.
     apply (max_weight_next n D w HD Hw cut shell c Hc Hmax).
   Qed.
 End Final.
+
+(* ------------------------------------------------------------------ the shell is a ball of the Gabriel graph *)
+Lemma nth_map2_orb u v b : length u = length v ->
+  nth b (map2 orb u v) false = nth b u false || nth b v false.
+Proof.
+  revert v b. induction u as [|x u IH]; intros [|y v] b H; try discriminate.
+  - destruct b; reflexivity.
+  - destruct b as [|b]; cbn; [reflexivity|]. apply IH. now injection H.
+Qed.
+
+Lemma gabriel_sq n D : length D = n -> sq_mat n (gabriel D).
+Proof.
+  intros HL. unfold gabriel. rewrite HL.
+  destruct (gab_outer_spec D n (seq 0 n) (repeat (repeat true n) n)) as [S _];
+    [intros i Hi; apply in_seq in Hi; lia|apply sq_mat_full|exact S].
+Qed.
+
+Section Shell.
+  Variable n : nat.
+  Variable G : list (list bool).
+  Hypothesis HG : sq_mat n G.
+
+  Lemma expand_inner N : forall l nn, length nn = n -> (forall j, In j l -> j < n) ->
+    let r := fold_left (fun nn j => if nth j N false then map2 orb nn (nth j G []) else nn) l nn in
+    length r = n /\
+    forall b, nth b r false = nth b nn false || existsb (fun j => nth j N false && bget G j b) l.
+  Proof.
+    induction l as [|j l IH]; intros nn Hn Hl; cbv zeta.
+    - cbn. split; [exact Hn|]. intros b. now rewrite orb_false_r.
+    - cbn [fold_left existsb]. assert (Hj : j < n) by (apply Hl; left; reflexivity).
+      assert (Hl' : forall j', In j' l -> j' < n) by (intros j' H; apply Hl; right; exact H).
+      pose proof (sq_mat_row n G j HG Hj) as Hrow.
+      destruct (nth j N false) eqn:Ej.
+      + destruct (IH (map2 orb nn (nth j G []))) as [S1 S2];
+          [rewrite map2_length, Hn, Hrow; apply Nat.min_id|exact Hl'|].
+        split; [exact S1|]. intros b. rewrite S2, nth_map2_orb by congruence.
+        cbn [andb]. unfold bget. now rewrite orb_assoc.
+      + destruct (IH nn Hn Hl') as [S1 S2]. split; [exact S1|]. intros b. rewrite S2. reflexivity.
+  Qed.
+
+  Lemma expand_spec N : length N = n ->
+    length (expand G N) = n /\
+    forall b, nth b (expand G N) false =
+              nth b N false || existsb (fun j => nth j N false && bget G j b) (seq 0 n).
+  Proof.
+    intros HN. unfold expand. rewrite HN.
+    destruct (expand_inner N (seq 0 n) (repeat false n)) as [S1 S2];
+      [apply repeat_length|intros j Hj; apply in_seq in Hj; lia|].
+    cbv zeta in *. split.
+    - rewrite map2_length, HN, S1. apply Nat.min_id.
+    - intros b. rewrite nth_map2_orb by congruence. rewrite S2, nth_repeat. reflexivity.
+  Qed.
+
+  (* a walk of k >= 1 edges whose intermediate vertices are points *)
+  Inductive gpath : nat -> nat -> nat -> Prop :=
+  | gpath_1 a b : bget G a b = true -> gpath 1 a b
+  | gpath_S k a j b : gpath k a j -> j < n -> bget G j b = true -> gpath (S k) a b.
+
+  Lemma gpath_pos k a b : gpath k a b -> 1 <= k.
+  Proof. induction 1; lia. Qed.
+
+  Lemma iter_expand_spec c : c < n -> forall t,
+    length (Nat.iter t (expand G) (nth c G [])) = n /\
+    forall b, nth b (Nat.iter t (expand G) (nth c G [])) false = true <->
+              exists k, 1 <= k <= S t /\ gpath k c b.
+  Proof.
+    intros Hc. induction t as [|t [IL IH]].
+    - cbn [Nat.iter]. split; [apply (sq_mat_row n G c HG Hc)|]. intros b. split.
+      + intros H. exists 1. split; [lia|]. constructor. exact H.
+      + intros (k & Hk & P). assert (k = 1) by lia. subst. inversion P as [a' b' H|k' a' j b' P' _ _]; subst.
+        * exact H.
+        * apply gpath_pos in P'. lia.
+    - change (Nat.iter (S t) (expand G) (nth c G [])) with (expand G (Nat.iter t (expand G) (nth c G []))).
+      set (N := Nat.iter t (expand G) (nth c G [])) in *.
+      destruct (expand_spec N IL) as [EL ES]. split; [exact EL|]. intros b. rewrite ES. split.
+      + intros H. apply orb_prop in H. destruct H as [H|H].
+        * apply IH in H. destruct H as (k & Hk & P). exists k. split; [lia|exact P].
+        * apply existsb_exists in H. destruct H as (j & Hj & H). apply in_seq in Hj.
+          apply andb_prop in H. destruct H as [H1 H2]. apply IH in H1. destruct H1 as (k & Hk & P).
+          exists (S k). split; [lia|]. apply (gpath_S k c j b P); [lia|exact H2].
+      + intros (k & Hk & P). destruct (Nat.le_gt_cases k (S t)) as [L|L].
+        * apply orb_true_intro. left. apply IH. exists k. split; [lia|exact P].
+        * assert (k = S (S t)) by lia. subst. inversion P as [a' b' H|k' a' j b' P' Hj H]; subst.
+          apply orb_true_intro. right. apply existsb_exists. exists j. split; [apply in_seq; lia|].
+          apply andb_true_intro. split; [|exact H]. apply IH. exists (S t). split; [lia|exact P'].
+  Qed.
+
+  Lemma shell_set_spec shell c b : c < n ->
+    (nth b (shell_set G shell c) false = true <-> exists k, 1 <= k <= Nat.max 1 shell /\ gpath k c b).
+  Proof.
+    intros Hc. unfold shell_set. destruct (iter_expand_spec c Hc (shell - 1)) as [_ H].
+    rewrite H. replace (S (shell - 1)) with (Nat.max 1 shell) by lia. reflexivity.
+  Qed.
+End Shell.
+
+(* ------------------------------------------------------------------ the outer loop may visit the points in any order *)
+Section FitOrder.
+  Variable n : nat.
+  Variable next : nat -> nat.
+  Variable w : list Z.
+  Hypothesis next_lt : forall i, i < n -> next i < n.
+  Hypothesis next_up : forall i, i < n -> next i = i \/ (wt w i < wt w (next i))%Z.
+
+  Lemma fit_step_inv_any R i : i < n -> InvO n next R ->
+    exists R', fit_step n next (Some R) i = Some R' /\ InvO n next R' /\
+               forall y, y < n -> (oget R y <> None \/ y = i) -> oget R' y <> None.
+  Proof.
+    intros Hi [HL HI]. cbn [fit_step]. destruct (oget R i) as [r|] eqn:Ei.
+    - exists R. split; [reflexivity|]. split; [split; assumption|].
+      intros y Hy [H| ->]; [exact H|rewrite Ei; discriminate].
+    - destruct (ascend_inv n next w next_lt next_up n i [i] R) as (R' & E & I & L).
+      + split; [exact HL|]. split; [exact Hi|]. split; [exact Ei|]. split; [left; reflexivity|]. split.
+        * intros x [<-|[]]. split; [exact Hi|]. split; [apply reach_refl|]. intros H; exfalso; apply H; reflexivity.
+        * intros y r Hy Hyp E. split; [apply HI; assumption|].
+          intros [<-|[]]. destruct (HI y i Hy E) as (_ & _ & G & _). rewrite Ei in G. discriminate.
+      + rewrite <- HL. apply count_none_le.
+      + exists R'. split; [exact E|]. split; [exact I|].
+        intros y Hy [H| ->]; apply L; try assumption; [left; exact H|right; left; reflexivity].
+  Qed.
+
+  Lemma fit_fold_any l : forall R, (forall i, In i l -> i < n) -> InvO n next R ->
+    exists R', fold_left (fit_step n next) l (Some R) = Some R' /\ InvO n next R' /\
+               forall y, y < n -> (oget R y <> None \/ In y l) -> oget R' y <> None.
+  Proof.
+    induction l as [|i l IH]; intros R Hl I.
+    - exists R. split; [reflexivity|]. split; [exact I|]. intros y Hy [H|[]]. exact H.
+    - cbn [fold_left].
+      destruct (fit_step_inv_any R i (Hl i (or_introl eq_refl)) I) as (R1 & E1 & I1 & L1). rewrite E1.
+      destruct (IH R1 (fun j Hj => Hl j (or_intror Hj)) I1) as (R' & E' & I' & L').
+      exists R'. split; [exact E'|]. split; [exact I'|].
+      intros y Hy [H|[<-|H]]; apply L'; try assumption.
+      + left. apply L1; [exact Hy|left; exact H].
+      + left. apply L1; [exact Hy|right; reflexivity].
+      + right. exact H.
+  Qed.
+
+  (* visiting the points in any order that covers all of them gives the labels of fit *)
+  Theorem fit_any_order order :
+    (forall i, In i order -> i < n) -> (forall i, i < n -> In i order) ->
+    fold_left (fit_step n next) order (Some (repeat None n)) = fit_with n next.
+  Proof.
+    intros Hlt Hall.
+    destruct (fit_fold_any order (repeat None n) Hlt (InvO_init n next)) as (R' & E' & [HL' HI'] & L').
+    destruct (fit_with_spec n next w next_lt next_up) as (R & E & HL & HS).
+    rewrite E, E'. f_equal. apply (nth_ext R' R None None); [congruence|].
+    intros i Hi. rewrite HL' in Hi. fold (oget R' i). fold (oget R i).
+    destruct (HS i Hi) as (r & A1 & _ & A3 & _ & A5).
+    destruct (oget R' i) as [r'|] eqn:Er'; [|exfalso; apply (L' i Hi); [right; apply Hall; exact Hi|exact Er']].
+    destruct (HI' i r' Hi Er') as (_ & B2 & _ & B4).
+    rewrite A1. f_equal. apply (limit_unique next i r' r); assumption.
+  Qed.
+End FitOrder.
+
+Lemma fit_any_order_both n D w cut shell order : sq_mat n D -> length w = n ->
+  (forall i, In i order -> i < n) -> (forall i, i < n -> In i order) ->
+  fold_left (fit_step n (next_cut D w cut)) order (Some (repeat None n)) = fit_cut D w cut /\
+  fold_left (fit_step n (next_gab D w shell)) order (Some (repeat None n)) = fit_gab D w shell.
+Proof.
+  intros HD Hw H1 H2. rewrite (fit_cut_eq n D w HD cut), (fit_gab_eq n D w HD shell). split.
+  - apply (fit_any_order n _ w); [apply next_cut_lt; assumption|intros i _; apply next_cut_up|assumption|assumption].
+  - apply (fit_any_order n _ w); [apply next_gab_lt; assumption|intros i _; apply next_gab_up|assumption|assumption].
+Qed.
